@@ -62,7 +62,7 @@ func (l Layout) Valid() bool {
 			}
 		}
 	}
-	return total <= 20000
+	return total <= 200000
 }
 
 func (l Layout) wtList() wt.ArchiveInfoList {
